@@ -50,18 +50,18 @@ class Mod:
     self.digest = hashlib.sha1(raw).hexdigest()
     self.src = raw.decode('utf-8')
     try:
-      self.tree = ast.parse(self.src, filename=path)
+      self._tree = ast.parse(self.src, filename=path)
     except SyntaxError as e:
       raise AnalysisError('unparsable file %s: %s' % (rel, e))
-    self._import_nodes = astu.set_parents(self.tree)
+    self._import_nodes = astu.set_parents(self._tree)
     self.dotted = rel[:-3].replace('/', '.')
     if self.dotted.endswith('.__init__'):
       self.dotted = self.dotted[: -len('.__init__')]
-    self.funcs: dict = {}
-    self.classes: dict = {}
+    self._funcs: dict = {}
+    self._classes: dict = {}
     self.imports: dict = {}  # local alias -> dotted target ('flax.core.lift' or 'flax.core.lift.scan')
-    self.assigns: dict = {}  # module-level simple name -> value node (last wins)
-    self._index(self.tree, '', None)
+    self._assigns: dict = {}  # module-level simple name -> value node (last wins)
+    self._index(self._tree, '', None)
     self._index_imports()
 
   def _index(self, node, prefix, cls):
@@ -69,30 +69,30 @@ class Mod:
       if isinstance(ch, astu.FUNC_TYPES):
         q = prefix + ch.name
         # keep the first def under a name unless later one is not an overload stub
-        if q in self.funcs and 'overload' in ' '.join(astu.decorator_names(ch)):
+        if q in self._funcs and 'overload' in ' '.join(astu.decorator_names(ch)):
           pass
         else:
-          if q in self.funcs and 'overload' not in ' '.join(astu.decorator_names(self.funcs[q].node)):
+          if q in self._funcs and 'overload' not in ' '.join(astu.decorator_names(self._funcs[q].node)):
             # redefinition (e.g. property setter): keep under a suffixed key too
             k = 2
-            while '%s#%d' % (q, k) in self.funcs:
+            while '%s#%d' % (q, k) in self._funcs:
               k += 1
-            self.funcs['%s#%d' % (q, k)] = Func(self, '%s#%d' % (q, k), ch, cls)
+            self._funcs['%s#%d' % (q, k)] = Func(self, '%s#%d' % (q, k), ch, cls)
           else:
-            self.funcs[q] = Func(self, q, ch, cls)
+            self._funcs[q] = Func(self, q, ch, cls)
         self._index(ch, q + '.', None)
       elif isinstance(ch, ast.ClassDef):
         q = prefix + ch.name
-        self.classes.setdefault(q, ch)
+        self._classes.setdefault(q, ch)
         self._index(ch, q + '.', ch)
       elif isinstance(ch, (ast.If, ast.Try, ast.With, ast.For, ast.While)):
         self._index(ch, prefix, cls)
-      elif isinstance(ch, ast.Assign) and node is self.tree:
+      elif isinstance(ch, ast.Assign) and node is self._tree:
         for t in ch.targets:
           if isinstance(t, ast.Name):
-            self.assigns[t.id] = ch.value
-      elif isinstance(ch, ast.AnnAssign) and node is self.tree and isinstance(ch.target, ast.Name) and ch.value:
-        self.assigns[ch.target.id] = ch.value
+            self._assigns[t.id] = ch.value
+      elif isinstance(ch, ast.AnnAssign) and node is self._tree and isinstance(ch.target, ast.Name) and ch.value:
+        self._assigns[ch.target.id] = ch.value
 
   def _index_imports(self):
     pkg = self.dotted if self.rel.endswith('__init__.py') else self.dotted.rsplit('.', 1)[0]
@@ -112,43 +112,80 @@ class Mod:
         for a in n.names:
           self.imports[a.asname or a.name] = base + '.' + a.name
 
-  # -- lookups ------------------------------------------------------------
-  def func(self, qual) -> Func:
-    f = self.funcs.get(qual)
-    if f is None:
-      raise AnalysisError('anchor vanished: function %s in %s' % (qual, self.rel))
+  # -- traced views (rules use these; the engine records what a rule consulted) ---------------
+  def _wide(self):
+    t = self.repo.trace
+    if t is not None:
+      t.add(('mod', self.rel))
+
+  @property
+  def funcs(self):
+    self._wide()
+    return self._funcs
+
+  @property
+  def classes(self):
+    self._wide()
+    return self._classes
+
+  @property
+  def assigns(self):
+    self._wide()
+    return self._assigns
+
+  @property
+  def tree(self):
+    self._wide()
+    return self._tree
+
+  def _rec(self, f):
+    t = self.repo.trace
+    if t is not None and f is not None:
+      t.add(('func', self.rel, f.qual.split('.')[0] if False else f.qual))
     return f
 
+  # -- lookups ------------------------------------------------------------
+  def func(self, qual) -> Func:
+    f = self._funcs.get(qual)
+    if f is None:
+      self._wide()
+      raise AnalysisError('anchor vanished: function %s in %s' % (qual, self.rel))
+    return self._rec(f)
+
   def cls(self, qual) -> ast.ClassDef:
-    c = self.classes.get(qual)
+    self._wide()
+    c = self._classes.get(qual)
     if c is None:
       raise AnalysisError('anchor vanished: class %s in %s' % (qual, self.rel))
     return c
 
   def has_func(self, qual):
-    return qual in self.funcs
+    self._wide()
+    return qual in self._funcs
 
   def methods(self, clsname) -> dict:
+    self._wide()
     pre = clsname + '.'
-    return {q[len(pre):]: f for q, f in self.funcs.items() if q.startswith(pre) and '.' not in q[len(pre):]}
+    return {q[len(pre):]: f for q, f in self._funcs.items() if q.startswith(pre) and '.' not in q[len(pre):]}
 
   def nested(self, qual) -> dict:
+    self._wide()
     pre = qual + '.'
-    return {q[len(pre):]: f for q, f in self.funcs.items() if q.startswith(pre)}
+    return {q[len(pre):]: f for q, f in self._funcs.items() if q.startswith(pre)}
 
   def func_of_node(self, node) -> Optional[Func]:
     """The Func whose def encloses `node` (innermost)."""
     cur = node
     while cur is not None:
       if isinstance(cur, astu.FUNC_TYPES):
-        for f in self.funcs.values():
+        for f in self._funcs.values():
           if f.node is cur:
             return f
       cur = astu.parent(cur)
     return None
 
   def qual_of(self, fnode) -> Optional[str]:
-    for q, f in self.funcs.items():
+    for q, f in self._funcs.items():
       if f.node is fnode:
         return q
     return None
@@ -197,6 +234,7 @@ class Repo:
             d = d[: -len('.__init__')]
           self._dotted_to_rel[d] = rel
     self.by_dotted = _LazyDotted(self)
+    self.trace = None   # set of consulted units while a rule runs
 
   def _load(self, rel):
     m = self._mods.get(rel)
@@ -229,7 +267,7 @@ class Repo:
 
   @property
   def n_funcs(self):
-    return sum(len(m.funcs) for m in self._mods.values())
+    return sum(len(m._funcs) for m in self._mods.values())
 
   @property
   def n_parsed(self):
@@ -252,6 +290,9 @@ class Repo:
 
   # -- symbol / call resolution --------------------------------------------
   def resolve_dotted(self, mod: Mod, name: str, scope: Func = None):
+    return self._note(self._resolve_dotted(mod, name, scope))
+
+  def _resolve_dotted(self, mod: Mod, name: str, scope: Func = None):
     """Resolve a dotted name used inside `mod` (optionally inside `scope`).
 
     Returns a Func, an ast.ClassDef wrapper ('class', mod, node), a Mod, or None.
@@ -263,8 +304,8 @@ class Repo:
       q = scope.qual
       while True:
         cand = q + '.' + head
-        if cand in mod.funcs:
-          return mod.funcs[cand]
+        if cand in mod._funcs:
+          return mod._funcs[cand]
         if '.' not in q:
           break
         q = q.rsplit('.', 1)[0]
@@ -274,14 +315,14 @@ class Repo:
         return self.lookup_method(c[0], c[1], rest[0])
       return None
     cur = None
-    if head in mod.funcs and not rest:
-      return mod.funcs[head]
-    if head in mod.classes:
+    if head in mod._funcs and not rest:
+      return mod._funcs[head]
+    if head in mod._classes:
       cur = ('class', mod, head)
     elif head in mod.imports:
       cur = self._resolve_abs(mod.imports[head])
-    elif head in mod.funcs:
-      cur = mod.funcs[head]
+    elif head in mod._funcs:
+      cur = mod._funcs[head]
     if cur is None:
       return None
     for r in rest:
@@ -302,9 +343,9 @@ class Repo:
 
   def _member(self, cur, name, depth=0):
     if isinstance(cur, Mod):
-      if name in cur.funcs:
-        return cur.funcs[name]
-      if name in cur.classes:
+      if name in cur._funcs:
+        return cur._funcs[name]
+      if name in cur._classes:
         return ('class', cur, name)
       if name in cur.imports and depth < 6:
         return self._resolve_abs(cur.imports[name], depth + 1)
@@ -321,13 +362,13 @@ class Repo:
     q = f.qual
     while '.' in q:
       q = q.rsplit('.', 1)[0]
-      if q in f.mod.classes:
+      if q in f.mod._classes:
         return (f.mod, q)
     return None
 
   def bases(self, mod: Mod, clsqual: str) -> list:
     out = []
-    c = mod.classes.get(clsqual)
+    c = mod._classes.get(clsqual)
     if c is None:
       return out
     for b in c.bases:
@@ -351,8 +392,11 @@ class Repo:
     return out
 
   def lookup_method(self, mod: Mod, clsqual: str, name: str):
+    return self._note(self._lookup_method(mod, clsqual, name))
+
+  def _lookup_method(self, mod: Mod, clsqual: str, name: str):
     for m, q in self.mro(mod, clsqual):
-      f = m.funcs.get(q + '.' + name)
+      f = m._funcs.get(q + '.' + name)
       if f is not None:
         return f
     return None
@@ -382,4 +426,9 @@ class Repo:
 
   def all_funcs(self):
     for m in self.mods.values():
-      yield from m.funcs.values()
+      yield from m._funcs.values()
+
+  def _note(self, r):
+    if isinstance(r, Func) and self.trace is not None:
+      self.trace.add(('func', r.mod.rel, r.qual))
+    return r
